@@ -3,7 +3,7 @@ and never panics.  Real text: recursion/src/verifier/stark.rs validate_proof_sha
 import re
 
 from vf.extract import extract_item
-from vf.unit import Unit
+from vf.unit import Unit, unmap_or, normalize_let_chains
 
 PRELUDE = r'''
 #![allow(unused_imports, unused_variables, dead_code, unused_mut, unused_parens)]
@@ -114,12 +114,10 @@ def build():
                      'preprocessed_commit: &Option<Comm>, quotient_degree: usize) -> Result<(), VerificationError>')
     v.erase_error_messages('VerificationError::InvalidProofShape')
     v.rewrite_re('R11', r'SC::Challenge::DIMENSION', 'challenge_dimension()', min_count=2)
-    v.rewrite('R6', 'opened_prep_local.as_ref().map_or(0, |v| v.len())', '(match opened_prep_local { Some(v) => v.len(), None => 0 })')
-    v.rewrite('R6', 'opened_prep_next.as_ref().map_or(0, |v| v.len())', '(match opened_prep_next { Some(v) => v.len(), None => 0 })')
+    unmap_or(v)
     v.rewrite('R6', 'opened_quotient_chunks .iter() .any(|opened_chunk| opened_chunk.len() != challenge_dimension())',
               '({ let mut any_ = false; for k_ in 0..opened_quotient_chunks.len() { let opened_chunk = &opened_quotient_chunks[k_]; if opened_chunk.len() != challenge_dimension() { any_ = true; } } any_ })')
-    v.rewrite('R6', 'if let Some(r_comm) = &opened_random && r_comm.len() != challenge_dimension() {',
-              'if (match &opened_random { Some(r_comm) => r_comm.len() != challenge_dimension(), None => false }) {')
+    normalize_let_chains(v)
     v.ensures('ok_iff_well_formed', 'ret is Ok <==> uni_shape_ok(air, opened_values, preprocessed_width as nat, preprocessed_commit.is_some(), quotient_degree as nat)')
     v.ensures('malformed_is_invalid_proof_shape', 'ret matches Err(e) ==> e is InvalidProofShape')
     v.loop('for k_ in 0..opened_quotient_chunks.len()', invariants=[
